@@ -9,6 +9,7 @@ from sa import tables
 from sa.report import RuleResult
 
 UTILS = "fparser.two.utils"
+F03 = "fparser.two.Fortran2003"
 
 
 class Node:
@@ -325,6 +326,178 @@ def pattern_split_rule(m, rid):
         r.ob(ok, "pattern.%s.%s(%r) -> %r" % (pname, meth, text, got))
         if not ok:
             r.fail("Pattern.%s|%s|%s" % (meth, pname, text), "pattern.%s.%s(%r) gives %r, expected %r" % (pname, meth, text, got, want), m.loc(f))
+    return r
+
+
+def binary_op_rule(m, rid):
+    """BinaryOpBase.match as a table (operand classes are recording stubs that accept any text; the replace map is the identity on these
+    strings): the engine cuts at the right operator occurrence and hands both sides on WHATEVER they look like -- the only reasons to refuse
+    a split are an empty side or an excluded operator."""
+    r = RuleResult(rid, "BinaryOpBase.match, decided as a table: lhs / operator / rhs are the pieces of the split, handed to the operand "
+                        "classes unchanged; a split is refused only for an empty side or an excluded operator (operands that end in a dot, "
+                        "such as .TRUE., are operands like any other)")
+    r.floor = 20
+    f = m.method(m.key("BinaryOpBase", UTILS), "match")
+    pk = m.key("Pattern", "fparser.two.pattern_tools")
+    fr, fl_ = m.method(pk, "rsplit"), m.method(pk, "lsplit")
+    if f is None or fr is None or fl_ is None:
+        r.error("BinaryOpBase.match / Pattern.rsplit / Pattern.lsplit vanished")
+        return r
+    pats = m.snap["patterns"]
+    g = dict(PE.module_regexes(m, UTILS))
+    g["string_replace_map"] = lambda s_, lower=False: (s_, lambda x: x)
+    ev = PE.Evaluator(g)
+    pev = PE.Evaluator(dict(PE.module_regexes(m, "fparser.two.pattern_tools")))
+
+    def pobj(name):
+        ent = pats[name]
+        rx = re.compile("(?P<op>%s)" % ent["pattern"], ent["flags"])
+        full = re.compile(r"\A(?:" + ent["pattern"] + r")\Z", ent["flags"])
+        o = PE.Obj({})
+        o.fields["get_compiled"] = lambda: rx
+        o.fields["__abs__"] = lambda: PE.Obj({"match": lambda s_: full.match(s_)})
+        o.fields["match"] = lambda s_: re.compile(ent["pattern"], ent["flags"]).match(s_)
+        o.fields["rsplit"] = lambda s_: run(pev, fr, [o, s_])
+        o.fields["lsplit"] = lambda s_: run(pev, fl_, [o, s_])
+        return o
+    L, R = ctor("L"), ctor("R")
+    X = "non_defined_binary_op"
+    cases = [
+        # (operator, text, right, exclude, expected (lhs, op, rhs) or None)
+        ("add_op", "a + b - c", True, None, ("a + b", "-", "c")),
+        ("add_op", "a+b", True, None, ("a", "+", "b")),
+        ("add_op", "-a + b", True, None, ("-a", "+", "b")),
+        ("add_op", "+ b", True, None, None),
+        ("add_op", "a +", True, None, None),
+        ("mult_op", "a * b / c", True, None, ("a * b", "/", "c")),
+        ("mult_op", "2. * x", True, None, ("2.", "*", "x")),
+        ("power_op", "a ** b ** c", False, None, ("a", "**", "b ** c")),
+        ("**", "a ** b ** c", False, None, ("a", "**", "b ** c")),
+        ("//", "a // b // c", True, None, ("a // b", "//", "c")),
+        ("concat_op", "a // b // c", True, None, ("a // b", "//", "c")),
+        ("rel_op", "a .le. b", True, None, ("a", ".LE.", "b")),
+        ("rel_op", "a <= b", True, None, ("a", "<=", "b")),
+        ("rel_op", "1. == x", True, None, ("1.", "==", "x")),
+        ("and_op", "a .and. b .AND. c", True, None, ("a .and. b", ".AND.", "c")),
+        ("and_op", ".TRUE. .AND. a", True, None, (".TRUE.", ".AND.", "a")),
+        ("and_op", "x .OR. .FALSE. .AND. y", True, None, ("x .OR. .FALSE.", ".AND.", "y")),
+        ("or_op", "a .AND. .TRUE. .OR. b", True, None, ("a .AND. .TRUE.", ".OR.", "b")),
+        ("or_op", ".false. .or. .true.", True, None, (".false.", ".OR.", ".true.")),
+        ("equiv_op", ".FALSE. .EQV. b .NEQV. c", True, None, (".FALSE. .EQV. b", ".NEQV.", "c")),
+        ("and_op", "a . and . b", True, None, ("a", ".AND.", "b")),
+        ("defined_binary_op", "a .x. b", True, X, ("a", ".X.", "b")),
+        ("defined_binary_op", ".TRUE. .x. a", True, X, (".TRUE.", ".X.", "a")),
+        ("defined_binary_op", "a .and. b", True, X, None),
+        ("defined_binary_op", "a .x. b .y. c", True, X, ("a .x. b", ".Y.", "c")),
+        ("and_op", "abc", True, None, None),
+    ]
+    for op, text, right, excl, want in cases:
+        r.instances += 1
+        if op in pats:
+            opv = pobj(op)
+        elif op.isidentifier():
+            r.error("pattern %s vanished" % op)
+            continue
+        else:
+            opv = op
+        kw = {"right": right}
+        if excl:
+            kw["exclude_op_pattern"] = pobj(excl)
+        got = run(ev, f, [L, opv, R, text], kw)
+        if isinstance(got, PE.PyRaise):
+            ok, shown = False, "raises %s" % got.exc_type
+        elif got is None:
+            ok, shown = want is None, None
+        else:
+            lhs, oper, rhs = got
+            shown = (lhs.text if isinstance(lhs, Node) else lhs, oper, rhs.text if isinstance(rhs, Node) else rhs)
+            ok = want is not None and shown == want and isinstance(lhs, Node) and lhs.tag == "L" and isinstance(rhs, Node) and rhs.tag == "R"
+        r.ob(ok, "BinaryOpBase.match(L, %s, R, %r, right=%s) -> %r" % (op, text, right, shown))
+        if not ok:
+            r.fail("BinaryOpBase.match|%s|%s" % (op, text), "BinaryOpBase.match(lhs_cls, %s, rhs_cls, %r, right=%s%s) gives %r, expected %r: "
+                   "the expression is grouped differently or not parsed at all"
+                   % (op, text, right, ", exclude=%s" % excl if excl else "", shown, want), m.loc(f))
+    return r
+
+
+# ---------------------------------------------------------------------------------------------------------------
+# hand-written list-statement matchers (splitting loops), decided as tables
+def _norm(v):
+    if isinstance(v, Node):
+        return v.text
+    if isinstance(v, (tuple, list)):
+        return [_norm(x) for x in v]
+    return v
+
+
+LIST_STMT_TABLES = {
+    "Data_Stmt": [
+        ("data a / 1 /", ["a / 1 /"]),
+        ("DATA a / 1 /, b / 3*0 /", ["a / 1 /", "b / 3*0 /"]),
+        ("data a /1/ b /2/", ["a /1/", "b /2/"]),
+        ("data a /1/, b /2/ , c /3/", ["a /1/", "b /2/", "c /3/"]),
+        ("data a(1) /1/,b/2/", ["a(1) /1/", "b/2/"]),
+        ("data a", None), ("data a / 1", None), ("dat a /1/", None), ("data a /1/ b", None), ("data a /1/ , b /2", None),
+    ],
+    "Namelist_Stmt": [
+        ("namelist /g/ a, b", [["g", "a, b"]]),
+        ("NAMELIST /g/ a, b /h/ c", [["g", "a, b"], ["h", "c"]]),
+        ("namelist /g/ a, /h/ c", [["g", "a"], ["h", "c"]]),
+        ("namelist / g / a", [["g", "a"]]),
+        ("namelist g/ a", None), ("namelist /g/ a /h", None), ("namelist", None), ("namelis /g/ a", None),
+    ],
+    "Common_Stmt": [
+        ("common a, b", [[[None, "a, b"]]]),
+        ("COMMON /c/ a, b", [[["c", "a, b"]]]),
+        ("common // a", [[[None, "a"]]]),
+        ("common /c/ a /d/ b", [[["c", "a"], ["d", "b"]]]),
+        ("common /c/ a, /d/ b", [[["c", "a"], ["d", "b"]]]),
+        ("common a /d/ b", [[[None, "a"], ["d", "b"]]]),
+        ("common /c/ a // b", [[["c", "a"], [None, "b"]]]),
+        ("common /c/ a, b /d/ e, f // g", [[["c", "a, b"], ["d", "e, f"], [None, "g"]]]),
+        ("commona", None), ("common /c", None), ("common /c/ /d/ b", None), ("common", None),
+    ],
+    "Dimension_Stmt": [
+        ("dimension a(2)", [[["a", "2"]]]),
+        ("DIMENSION :: a(2), b(n)", [[["a", "2"], ["b", "n"]]]),
+        ("dimension a (2) , b( 3 )", [[["a", "2"], ["b", "3"]]]),
+        ("dimension a", None), ("dimension a(2), b", None), ("dimensio a(2)", None), ("dimension a(2) b", None),
+    ],
+}
+
+
+def list_stmt_rule(m, rid):
+    r = RuleResult(rid, "the hand-written list-statement matchers (DATA, NAMELIST, COMMON, DIMENSION), decided as tables: every set / group / "
+                        "block / declarator of the statement is handed to its class exactly once with exactly its text, with or without "
+                        "the optional separating comma (strings on which the replace map is the identity)")
+    r.floor = 35
+    for cname, rows in LIST_STMT_TABLES.items():
+        k = m.key(cname, F03)
+        f = m.method(k, "match") if k else None
+        if f is None:
+            r.error("%s.match vanished" % cname)
+            continue
+        g = dict(PE.module_regexes(m, F03))
+        g["string_replace_map"] = lambda s_, lower=False: (s_, lambda x: x)
+        for n in ast.walk(f.node):
+            if isinstance(n, ast.Call) and isinstance(n.func, ast.Name) and n.func.id not in g:
+                kk = m.class_of_name(f, n.func.id)
+                if kk:
+                    g[n.func.id] = ctor(n.func.id)
+        ev = PE.Evaluator(g)
+        bad = []
+        for text, want in rows:
+            r.instances += 1
+            got = run(ev, f, [text])
+            shown = "raises %s" % got.exc_type if isinstance(got, PE.PyRaise) else _norm(got)
+            ok = shown == want
+            r.ob(ok, "%s.match(%r) -> %r" % (cname, text, shown) if r.obligations % 5 == 0 else None)
+            if not ok:
+                bad.append((text, shown, want))
+        if bad:
+            text, shown, want = bad[0]
+            r.fail("%s.match|list-table" % cname, "%s.match(%r) hands on %r, expected %r (%d of %d rows disagree): a set/group of the statement "
+                   "is lost, cut in the wrong place, or a valid statement is rejected" % (cname, text, shown, want, len(bad), len(rows)), m.loc(f))
     return r
 
 
